@@ -1,12 +1,12 @@
 CONSTANTS
   Ttl1 = 4
-  Ttl2 = 1
+  Ttl2 = 2
   NL = 2
   SessTtl = 3
   MaxSess = 3
-  TMax = 6
-  Depth = 5
-  MaxGap = 3
+  TMax = 5
+  Depth = 4
+  MaxGap = 2
 SPECIFICATION Spec
 INVARIANT Inv
 INVARIANT Emit
